@@ -8,7 +8,7 @@ anything else raises.
 import os
 import re
 
-from mirparse import split_top, match_paren, norm_type
+from mirparse import split_top, match_paren, norm_type, find_top
 
 
 def strip_comments(src):
@@ -96,6 +96,7 @@ class RustDefs:
     def __init__(self, src_root):
         self.enums = {}     # 'module::Name' -> EnumDef
         self.structs = {}
+        self.aliases = {}   # 'module::Name' -> (generics, target type)
         for dp, dn, fn in os.walk(src_root):
             for f in fn:
                 if f.endswith('.rs'):
@@ -116,6 +117,9 @@ class RustDefs:
     def _scan(self, path, root):
         src = strip_comments(open(path).read())
         mod = module_of(path, root)
+        for m in re.finditer(r'\btype\s+([A-Za-z_][A-Za-z0-9_]*)\s*(<[^>=]*>)?\s*=\s*([^;]+);', src):
+            gens = [g.strip() for g in m.group(2)[1:-1].split(',')] if m.group(2) else []
+            self.aliases[mod + '::' + m.group(1)] = (gens, _clean_type(m.group(3)))
         for m in re.finditer(r'\b(enum|struct)\s+([A-Za-z_][A-Za-z0-9_]*)\s*(<[^>{(;]*>)?\s*(where[^{;]*)?([{(;])', src):
             kind, name, gen, _w, opener = m.groups()
             generics = []
@@ -176,8 +180,15 @@ class RustDefs:
                         s.fields.append((ft[:kk].strip().split()[-1], _clean_type(ft[kk + 1:])))
                 self.structs[mod + '::' + name] = s
 
+    prefer_module = None
+
     def _find(self, table, path):
-        """Resolve a (possibly abbreviated) type path by longest suffix match."""
+        """Resolve a (possibly abbreviated) type path by longest suffix match; an unqualified name is
+        looked up in `prefer_module` first (the module whose definition mentions it)."""
+        if self.prefer_module and '::' not in re.sub(r'<.*$', '', path).strip():
+            k = self.prefer_module + '::' + re.sub(r'<.*$', '', path).strip()
+            if k in table:
+                return table[k]
         path = re.sub(r'<.*$', '', path).strip()
         segs = path.split('::')
         cands = [k for k in table if k.split('::')[-1] == segs[-1]]
@@ -200,6 +211,33 @@ class RustDefs:
             if k.startswith('std::'):
                 return table[k]
         raise KeyError("ambiguous type path %r: %s" % (path, cands))
+
+    def expand_alias(self, ty, module):
+        """Expand type aliases (`pub type Poisonable<T> = Result<T, Poison>`) in a field type written in
+        `module`; aliases of the same module win, otherwise a unique alias of that name."""
+        def repl(t, depth=0):
+            if depth > 8:
+                return t
+            k = find_top(t, '<')
+            base = (t if k < 0 else t[:k]).strip()
+            args = split_top(t[k + 1:-1]) if k >= 0 and t.endswith('>') else []
+            args = [repl(a, depth + 1) for a in args]
+            name = base.split('::')[-1]
+            cand = self.aliases.get(module + '::' + name)
+            if cand is None and '::' not in base:
+                hits = [v for kk, v in self.aliases.items() if kk.split('::')[-1] == name]
+                # only expand module-agnostic aliases (same definition everywhere)
+                if hits and all(h == hits[0] for h in hits):
+                    cand = hits[0]
+            if cand is not None and not (base.startswith('&') or base.startswith('(')):
+                gens, target = cand
+                env = dict(zip(gens, args))
+                out = re.sub(r'\b([A-Z][A-Za-z0-9_]*)\b', lambda m: env.get(m.group(1), m.group(1)), target)
+                return repl(out, depth + 1)
+            if args:
+                return '%s<%s>' % (base, ', '.join(args))
+            return t
+        return repl(ty.strip())
 
     def find_enum(self, path):
         return self._find(self.enums, path)
